@@ -1066,3 +1066,253 @@ l2_harness! {
     #[kani::unwind(5)]
     fn l2_await_status_response_log() { step_await_status_response(true) }
 }
+
+// ==========================================================================================
+// UseToken / AwaitDataResponse with nondeterministic applications (C13, C15)
+// ==========================================================================================
+
+pub(crate) const TTR_US: i64 = 32436 * BIT_US as i64;
+pub(crate) const GAP_RESERVE_US: i64 = (SLOT_BITS as i64 + 100) * BIT_US as i64;
+
+fn any_use_token_data(napps: usize) -> UseTokenData {
+    let first_app = if kani::any() {
+        let f: usize = kani::any();
+        kani::assume(f < napps);
+        Some(f)
+    } else {
+        None
+    };
+    UseTokenData { token_time: any_instant(), first_app }
+}
+
+/// Reference for what happens once the station may use the token in this poll (pause over):
+/// which applications are asked, in which order, who sends, and the resulting state.
+/// `fcd` = the visit's guaranteed cycle was already granted.
+fn check_use_token(
+    st: &FdlActiveStation,
+    s: &Sent,
+    apps: &[NdApp; 3],
+    napps: usize,
+    pre_next: usize,
+    data: UseTokenData,
+    fcd: bool,
+    end_hold: Inst,
+    now: Inst,
+    ts: u8,
+    seq_base: u8,
+) {
+    let hold_open = now < end_hold;
+    let offer = hold_open || !fcd;
+    let mut idx = pre_next;
+    let mut first_app = data.first_app;
+    let mut sender: Option<usize> = None;
+    let mut asked = 0u8;
+    if offer {
+        let mut k = 0;
+        while k < napps {
+            asked += 1;
+            assert!(apps[idx].tx_calls == 1 && apps[idx].tx_seq == seq_base + asked, "C15/round-robin: applications are asked in round-robin order starting with the one whose turn it is, each at most once per poll");
+            assert!(apps[idx].tx_high_prio_only == !hold_open, "C13/hold-gate: low-priority cycles are offered only while the token hold time is running; afterwards only the one guaranteed high-priority cycle");
+            if apps[idx].behaviour != 0 {
+                sender = Some(idx);
+                break;
+            }
+            // declined: its turn ends
+            let fa = *first_app.get_or_insert(idx);
+            idx = (idx + 1) % napps;
+            if idx == fa {
+                break;
+            }
+            k += 1;
+        }
+    }
+    // nobody else was asked
+    let mut total = 0u8;
+    let mut i = 0;
+    while i < 3 {
+        total += apps[i].tx_calls;
+        i += 1;
+    }
+    assert!(total == asked, "C15/round-robin: no application is asked outside its turn (none at all once the hold time is over and the guaranteed cycle was used)");
+    let data_after = UseTokenData { token_time: data.token_time, first_app };
+    match sender {
+        Some(i) => {
+            assert!(st.next_application == i, "C15/round-robin: the sending application keeps its turn until its message cycle is over");
+            if apps[i].behaviour == 1 {
+                assert!(is_status_request(s, apps[i].target, ts), "C15/tx: the application's telegram is what goes on the wire");
+                assert!(st.state == State::AwaitDataResponse { address: apps[i].target, data: data_after }, "C15/await: a request that expects a reply is followed by waiting for exactly that station's reply");
+                kani::cover!(i != pre_next, "cover: a later application sends after an earlier one declined");
+            } else {
+                assert!(matches!(s, Sent::Data(h, 2) if h.da == 127), "C15/tx: the application's telegram is what goes on the wire");
+                assert!(st.state == State::UseToken { data: data_after, first_cycle_done: true }, "C15/await: a request without reply keeps the token in use");
+            }
+        }
+        None => {
+            assert!(*s == Sent::Nothing, "C01/role: without an application telegram nothing is sent in this poll");
+            assert!(st.state == State::PassToken { do_gap: DoGap::Yes, attempt: PassTokenAttempt::First }, "C13/pass-on: when every application has declined once or the hold time is over the token is passed on (with the visit's GAP turn)");
+            if offer && napps > 0 {
+                assert!(st.next_application == idx, "C15/round-robin: a decline advances the turn by exactly one application");
+            } else {
+                assert!(st.next_application == pre_next, "C15/round-robin: the turn does not move when nobody was asked");
+            }
+            kani::cover!(offer && napps == 3 && asked == 3, "cover: three applications decline in turn");
+            kani::cover!(!offer, "cover: hold time over and guaranteed cycle used: token passed without asking");
+        }
+    }
+}
+
+fn step_use_token(log_on: bool) {
+    logging(log_on);
+    reset_ring_log();
+    unsafe {
+        CB_SEQ = 0;
+    }
+    let napps: usize = kani::any();
+    kani::assume(napps <= 3);
+    let p = any_params();
+    let data = any_use_token_data(napps);
+    let fcd: bool = kani::any();
+    let mut st = any_station(p, State::UseToken { data, first_cycle_done: fcd }, napps);
+    kani::assume(inv_fdl(&st, napps));
+    let mut phy = Phy::any();
+    let now = any_instant();
+    let pre = snapshot(&st, &phy);
+    let ts = pre.ts;
+    let mut apps = [NdApp::any(), NdApp::any(), NdApp::any()];
+
+    {
+        let [a0, a1, a2] = &mut apps;
+        let mut refs: [&mut dyn FdlApplication; 3] = [a0, a1, a2];
+        st.poll_multi(now, &mut phy, &mut refs[..napps]);
+    }
+
+    universal(&pre, &st, &phy, now, napps);
+    let s = sent(&phy);
+    assert!(ring_calls() == 0, "C02/las: using the token reports nothing to the ring view");
+    let mut i = 0;
+    while i < 3 {
+        assert!(apps[i].rx_calls == 0 && apps[i].to_calls == 0, "C15/matched-reply: no reply or time-out is delivered while no reply is outstanding");
+        i += 1;
+    }
+    if pre.busy(now) {
+        assert!(st.state == State::UseToken { data, first_cycle_done: fcd } && apps[0].tx_calls + apps[1].tx_calls + apps[2].tx_calls == 0, "C01/busy: nothing changes while a transmission is in progress");
+        return;
+    }
+    // hold time bookkeeping on the first poll of a token visit
+    let first_poll = pre.last_token_time != data.token_time;
+    let want_end = if first_poll {
+        let reserve = if matches!(pre.gap, GapState::DoPoll { .. }) { GAP_RESERVE_US } else { 0 };
+        Inst::from_micros(pre.last_token_time.total_micros() + TTR_US - reserve)
+    } else {
+        pre.end_hold
+    };
+    assert!(st.end_token_hold_time == want_end, "C13/hold-time: the token hold time ends one target rotation time after the previous token receipt (minus one GAP poll when one is pending)");
+    assert!(st.last_token_time == data.token_time, "C13/hold-time: the receipt time of this visit's token is remembered for the next rotation");
+    if !pre.pause_over(now) {
+        assert!(s == Sent::Nothing && st.state == State::UseToken { data, first_cycle_done: fcd } && apps[0].tx_calls + apps[1].tx_calls + apps[2].tx_calls == 0, "C01/sync-pause: the token is used only after the synchronisation pause");
+        return;
+    }
+    check_use_token(&st, &s, &apps, napps, pre.next_app, data, fcd, want_end, now, ts, 0);
+    kani::cover!(first_poll && now >= want_end && !fcd && napps > 0, "cover: hold time already over on arrival: one guaranteed high-priority cycle");
+    kani::cover!(napps == 0, "cover: station without applications");
+}
+
+l2_harness! {
+    #[kani::unwind(10)]
+    fn l2_use_token() { step_use_token(false) }
+}
+
+l2_harness! {
+    #[kani::unwind(10)]
+    fn l2_use_token_log() { step_use_token(true) }
+}
+
+fn step_await_data_response(log_on: bool) {
+    logging(log_on);
+    reset_ring_log();
+    unsafe {
+        CB_SEQ = 0;
+    }
+    let napps: usize = kani::any();
+    kani::assume(napps >= 1 && napps <= 3);
+    let p = any_params();
+    let data = any_use_token_data(napps);
+    let address: u8 = kani::any();
+    kani::assume(address <= 127);
+    let mut st = any_station(p, State::AwaitDataResponse { address, data }, napps);
+    kani::assume(inv_fdl(&st, napps));
+    let mut phy = Phy::any();
+    let now = any_instant();
+    let pre = snapshot(&st, &phy);
+    let ts = pre.ts;
+    let tel = phy.tel;
+    let n = phy.n;
+    let mut apps = [NdApp::any(), NdApp::any(), NdApp::any()];
+    let who = pre.next_app;
+
+    {
+        let [a0, a1, a2] = &mut apps;
+        let mut refs: [&mut dyn FdlApplication; 3] = [a0, a1, a2];
+        st.poll_multi(now, &mut phy, &mut refs[..napps]);
+    }
+
+    universal(&pre, &st, &phy, now, napps);
+    let s = sent(&phy);
+    assert!(ring_calls() == 0, "C02/las: awaiting a reply reports nothing to the ring view");
+    let mut i = 0;
+    while i < 3 {
+        if i != who {
+            assert!(apps[i].rx_calls == 0 && apps[i].to_calls == 0, "C15/matched-reply: replies and time-outs go only to the application that sent the request");
+        }
+        i += 1;
+    }
+    assert!(apps[who].rx_calls + apps[who].to_calls <= 1, "C15/matched-reply: at most one of reply and time-out is delivered per request");
+    if pre.busy(now) {
+        assert!(st.state == State::AwaitDataResponse { address, data } && apps[who].callbacks() == 0, "C01/busy: nothing changes while a transmission is in progress");
+        return;
+    }
+    if n >= 1 {
+        let t = &tel[0];
+        let valid = t.kind == 1 || (t.kind == 2 && t.sa == address && t.da == ts && matches!(t.fc, crate::fdl::FunctionCode::Response { .. }));
+        assert!(s == Sent::Nothing, "C01/role: nothing is sent in the poll that receives a telegram");
+        if valid {
+            assert!(apps[who].rx_calls == 1 && apps[who].to_calls == 0 && apps[who].rx_addr == address, "C15/matched-reply: the reply is delivered once, to the sender, tagged with the addressed station");
+            assert!(apps[who].rx_kind == t.kind && (t.kind == 1 || (apps[who].rx_sa == address && apps[who].rx_da == ts && apps[who].rx_is_response)), "C15/admission: a delivered reply is a short confirmation or a response telegram from the addressed station to this station");
+            assert!(st.state == State::UseToken { data, first_cycle_done: true }, "C15/await: after the reply the token is in use again, the guaranteed cycle counted as used");
+            assert!(apps[0].tx_calls + apps[1].tx_calls + apps[2].tx_calls == 0, "C15/round-robin: no new request in the poll that delivered the reply");
+            kani::cover!(t.kind == 1, "cover: short confirmation delivered");
+            kani::cover!(t.kind == 2, "cover: response telegram delivered");
+        } else {
+            assert!(apps[who].callbacks() == 0, "C15/admission: a telegram that is not a reply to the request is never delivered to the application");
+            assert!(st.state == IDLE_FRESH, "C06/back-off: a telegram that is not the awaited reply makes the token holder back off to idle");
+            kani::cover!(t.kind == 2 && t.sa == address && t.da == ts, "cover: request (not response) from the addressed station rejected");
+            kani::cover!(t.kind == 2 && t.sa != address && matches!(t.fc, crate::fdl::FunctionCode::Response { .. }), "cover: response from a foreign source rejected");
+        }
+        return;
+    }
+    if !pre.slot_expired(now) {
+        assert!(s == Sent::Nothing && st.state == State::AwaitDataResponse { address, data } && apps[who].callbacks() == 0, "C15/await: the reply is awaited for one slot time");
+        return;
+    }
+    // time-out: delivered once, then the token is used again at once
+    assert!(apps[who].to_calls == 1 && apps[who].rx_calls == 0 && apps[who].to_addr == address && apps[who].to_seq == 1, "C15/matched-reply: the time-out is delivered once, to the sender, before anything else happens");
+    let first_poll = pre.last_token_time != data.token_time;
+    let want_end = if first_poll {
+        let reserve = if matches!(pre.gap, GapState::DoPoll { .. }) { GAP_RESERVE_US } else { 0 };
+        Inst::from_micros(pre.last_token_time.total_micros() + TTR_US - reserve)
+    } else {
+        pre.end_hold
+    };
+    check_use_token(&st, &s, &apps, napps, pre.next_app, data, true, want_end, now, ts, 1);
+    kani::cover!(apps[who].tx_calls == 1, "cover: retry offered to the same application right after its time-out");
+}
+
+l2_harness! {
+    #[kani::unwind(10)]
+    fn l2_await_data_response() { step_await_data_response(false) }
+}
+
+l2_harness! {
+    #[kani::unwind(10)]
+    fn l2_await_data_response_log() { step_await_data_response(true) }
+}
